@@ -468,9 +468,10 @@ var specs = map[string]*CheckSpec{
 		Runs: []HarnessRun{
 			vmRun("ZZ_C12", 3),
 			{Pkg: compilerPkg, Dir: "internal/machine/script/compiler", Mod: "ledger", Fn: "ZZ_C12Alloc", Shapes: countShapes(compilerPkg, "ZZ_C12AllocN"), Cfg: vmCfg, Desc: harnessDesc(compilerPkg, "ZZ_C12AllocDesc", "resource table step:"), CanaryShapes: []int{0, 3}},
+			{Pkg: compilerPkg, Dir: "internal/machine/script/compiler", Mod: "ledger", Fn: "ZZ_C12Err", Shapes: rangeShapes(5), Cfg: vmCfg, Desc: harnessDesc(compilerPkg, "ZZ_C12ErrDesc", "error rendering:"), CanaryShapes: []int{2}},
 			{Pkg: vmPkg, Dir: "internal/machine/vm", Mod: "ledger", Fn: "ZZ_C12Odd", Shapes: countShapes(vmPkg, "ZZ_C12OddN"), Cfg: vmCfg, Desc: plainDesc("odd-but-valid program"), CanaryShapes: []int{2, 13}},
 		},
-		Bounds: numgenBounds, Assumptions: append([]string{"arbitrary byte strings into the ANTLR lexer/parser are outside the claim (DESIGN §6)"}, vmStubs...), Encoded: vmEncoded,
+		Bounds: numgenBounds, Assumptions: append([]string{"arbitrary byte strings into the ANTLR lexer/parser are outside the claim (DESIGN §6); the rendering of a compile error (CompileErrorList.Error) is checked for script texts of 0..4 arbitrary bytes out of {LF, CR, TAB, space, letter} with the error at the end of input or at a one-letter token, positions computed as ANTLR reports them"}, vmStubs...), Encoded: vmEncoded,
 		Rule:   "every path of every generated and every odd-but-valid program: a Go panic or an exhausted instruction budget is a violation; the same Program is executed twice and must behave the same",
 	},
 	"C01": {
